@@ -500,6 +500,9 @@ pub fn generate(stream: &str, tier: &str, seed: u64) -> Vec<String> {
             }
             // one large publish (thresholds in the parallel label derivation / insertion / preloading)
             big_batch_case(&mut rng, "exp", 1031, &mut out);
+            // sequential vs parallel insertion on structured (tree, batch) pairs
+            out.push(format!("o.par.sweep wv1 {} {}", if thorough { 3000 } else { 500 }, rng.next() % 1000));
+            out.push(format!("o.par.sweep exp {} {}", if thorough { 3000 } else { 500 }, rng.next() % 1000));
             crate::gen_trie::gen_perm(&mut rng, thorough, &mut out);
         }
         "l1.fault" => gen_fault(&mut rng, thorough, &mut out),
